@@ -182,7 +182,8 @@ def scope_leak_probes(ck, prop):
     ops = [("!foreach(s, %(list)s, %(body)s)", "list<%(t)s>"), ("!filter(s, %(list)s, %(body)s)", "list<int>"),
            ("!foldl(0, %(list)s, acc, s, %(body)s)", "int")]
     bodies = [("valid-cond", '!cond(!eq(s, 1): 10, true: 20)', "int", False), ("valid-typed", "!add(s, 1)", "int", False),
-              ("fault-undefined", "undefined_probe_id", "int", True), ("fault-bad-field", "s.nofield", "int", True)]
+              ("fault-undefined", "undefined_probe_id", "int", True), ("fault-bad-field", "s.nofield", "int", True),
+              ("untyped-bit-of-int", "s{0}", "bit", None)]      # neither valid TableGen nor a listed fault: only used for invariance
     hosts = [("class-field", "class Shape<list<int> dims> {\n  %(ft)s labels = %(expr)s;\n}\n", "dims"),
              ("def-field", "def holder {\n  list<int> xs = [1, 2];\n  %(ft)s ys = %(expr)s;\n}\n", "xs"),
              ("multiclass-def", "multiclass MH<int v> {\n  def _x {\n    list<int> hl = [1, 2];\n    %(ft)s L = %(expr)s;\n  }\n}\n", "hl"),
@@ -210,7 +211,9 @@ def scope_leak_probes(ck, prop):
     zero_use = mt.index("= Zero") + 2
     pair_decl = mt.index("multiclass Pair") + len("multiclass ")
     zero_decl = mt.index("def Zero") + 4
-    queries = [["diagnostics"], ["goto", "/main.td", pair_use], ["goto", "/main.td", zero_use]]
+    queries = [["diagnostics"], ["goto", "/main.td", pair_use], ["goto", "/main.td", zero_use], ["document_symbol", "/main.td"]]
+    want_outline = [("Class", "Base0", []), ("Multiclass", "Pair", [("TemplateArgument", "p")]), ("Def", "_a", []), ("Def", "Zero", []),
+                    ("Class", "User", [("Field", "b")])]
     res = core.impl(["ws " + json.dumps({"files": f, "root": "/main.td", "queries": queries}) for _, f, _, _, _ in cases], tag="leak" + prop)
     for (name, files, faulty, site, slen), r in zip(cases, res):
         try:
@@ -220,6 +223,14 @@ def scope_leak_probes(ck, prop):
             continue
         diags = {f: ds for f, ds in ans[0]}
         case = {"files": files, "root": "/main.td", "detail": {"probe": name}}
+        if prop == "C18":
+            got = [(x["kind"], x["name"], [(c["kind"], c["name"]) for c in x["children"]]) for x in (ans[3] or [])]
+            if got != want_outline:
+                ck.fail(["C18", "outline", "after-scoped-operator"], "the outline of a file changes with the body of an operator in the file it includes: %s" % got,
+                        case, json.dumps(got)[:400], json.dumps(want_outline))
+            continue
+        if prop == "C13" and faulty is None:
+            continue
         if prop == "C13":
             if diags.get("/main.td"):
                 ck.fail(["C13", "touched-files" if faulty else "false-diagnostic", "after-scoped-operator"],
@@ -240,3 +251,68 @@ def scope_leak_probes(ck, prop):
                 ck.fail(["C05", "goto", "after-scoped-operator:def-use"], "go-to-definition on a def use after a scoped operator in an included file answers %s" % ans[2],
                         case, json.dumps(ans[2]), json.dumps(["/main.td", zero_decl, zero_decl + 4]))
     ck.count("scope_leak_probes", len(cases), {c[0] for c in cases}, sample={"probe": cases[2][0], "files": cases[2][1]})
+
+
+# ---------------------------------------------------------------------------------------------------
+# shadowing across declaration categories (each accepted by llvm-tblgen 14 with the stated meaning)
+def _occ(text, name, nth):
+    import re as _re
+    ms = [m.start() for m in _re.finditer(r"(?<![A-Za-z0-9_])%s(?![A-Za-z0-9_])" % _re.escape(name), text)]
+    return ms[nth]
+
+
+SHADOW = [
+    # (text, [(use name, nth occurrence, declaration name, nth occurrence)])
+    ('foreach i = [1, 2] in { defvar i = "s"; defvar j = i; }', [("i", 2, "i", 1)], "defvar-in-foreach-body-named-like-iterator"),
+    ('defvar v = "s"; class A { int v = 1; int w = v; }', [("v", 2, "v", 1)], "field-over-global-defvar"),
+    ('def x; class A<int x> { int y = x; }', [("x", 2, "x", 1)], "template-argument-over-global-def"),
+    ('foreach i = [1] in foreach i = [2] in def d#i { int a = i; }', [("i", 3, "i", 1)], "inner-foreach-iterator"),
+    ('defvar x = 1; def d { list<int> l = !foreach(x, [1], x); int y = x; }', [("x", 2, "x", 1), ("x", 3, "x", 0)], "bang-variable-then-defvar-again"),
+    ('defvar a = 1; if 1 then { defvar a = 2; def p { int v = a; } } def q { int v = a; }', [("a", 2, "a", 1), ("a", 3, "a", 0)], "block-defvar-then-outer-again"),
+    ('class A { int v = 1; } def d : A { int w = v; }', [("v", 1, "v", 0)], "inherited-field"),
+    ('class A { int v = 1; } class B<int n> { int w = n; } def d : A, B<v>;', [("v", 1, "v", 0)], "field-of-earlier-parent-in-later-parent-argument"),
+    ('class A { int v = 1; } class B<int n> { int w = n; } class C : A, B<v>; multiclass M { def _x : A, B<v>; }', [("v", 1, "v", 0), ("v", 2, "v", 0)],
+     "field-of-earlier-parent-in-later-parent-argument:class-and-multiclass"),
+    ('defvar v = "s"; class A { int v = 1; } class B<int n> { int w = n; } def d : A, B<v>;', [("v", 2, "v", 1)], "earlier-parent-field-over-global-defvar"),
+]
+
+
+def shadow_probes(ck, prop):
+    lines, meta = [], []
+    for text, pairs, tag in SHADOW:
+        qs = [["diagnostics"]] + [["goto", "/main.td", _occ(text, u, un)] for u, un, _, _ in pairs]
+        lines.append("ws " + json.dumps({"files": {"/main.td": text}, "root": "/main.td", "queries": qs}))
+        meta.append((text, pairs, tag))
+    res = core.impl(lines, tag="shd" + prop)
+    for (text, pairs, tag), r in zip(meta, res):
+        try:
+            ans = json.loads(r)
+        except Exception:
+            continue
+        case = {"files": {"/main.td": text}, "root": "/main.td", "detail": {"probe": tag}}
+        if prop == "C13":
+            ds = [d for _, v in ans[0] for d in v]
+            if ds:
+                ck.fail(["C13", "false-diagnostic", "shadowing:" + tag.split(":")[0]], "a well-formed program (accepted by llvm-tblgen) produces diagnostics: %s" % ds[:2],
+                        case, json.dumps(ds)[:300], "no diagnostics")
+            continue
+        for (u, un, d, dn), got in zip(pairs, ans[1:]):
+            want = ["/main.td", _occ(text, d, dn), _occ(text, d, dn) + len(d)]
+            if got != want:
+                ck.fail(["C05", "goto", "shadowing:" + tag.split(":")[0]], "go-to-definition on %r (occurrence %d) answers %s; the innermost declaration in scope is at %s" % (u, un, got, want),
+                        case, json.dumps(got), json.dumps(want))
+    ck.count("shadow_probes", len(SHADOW), {t for _, _, t in SHADOW}, sample={"text": SHADOW[0][0]})
+
+
+def typed_parent_fault_probe(ck):
+    """C13: the argument of a later parent names a field of an earlier parent whose type does not fit (llvm-tblgen rejects)"""
+    text = 'defvar v = 1; class A { string v = "s"; } class B<int n> { int w = n; } def d : A, B<v>;'
+    r = core.impl(["ws " + json.dumps({"files": {"/main.td": text}, "root": "/main.td", "queries": [["diagnostics"]]})], tag="tpf")[0]
+    try:
+        ds = [d for _, v in json.loads(r)[0] for d in v]
+    except Exception:
+        return
+    site = text.rindex("v>")
+    if not any(a <= site and site + 1 <= b for _, a, b, _ in ds):
+        ck.fail(["C13", "missed-fault", "type-incompatible-argument:earlier-parent-field"], "a string field of an earlier parent passed to an int parameter of a later parent is not reported",
+                {"files": {"/main.td": text}, "root": "/main.td"}, json.dumps(ds)[:300], "a diagnostic covering offset %d" % site)
